@@ -830,9 +830,34 @@ func (r *ddRun) stepWait(q *ddReq) (bool, error) {
 	return true, nil
 }
 
+// A generation TLC times out does so before its leader's DoneGeneration (the
+// model's Timeout needs the generation not done).  The leader's last burst
+// (LeadCheck/Downstream + deferred DoneGeneration) cannot be split on the real
+// code, so the expiry is taken first: still a behaviour of the model.
+func (r *ddRun) expireBeforeDone(q *ddReq) error {
+	if q.role != "leader" {
+		return nil
+	}
+	g := r.id(q.gen)
+	if g < 1 || !r.short[g] || r.expired[g] {
+		return nil
+	}
+	ok, err := r.stepTimeout(g)
+	if ok {
+		r.hist = append(r.hist, fmt.Sprintf("Timeout(%d)", g))
+		r.res.Count("steps", 1)
+	}
+	return err
+}
+
 func (r *ddRun) stepLeadCheck(q *ddReq) (bool, error) {
 	if q.status != "lead" {
 		return false, nil
+	}
+	if q.ctx.fired() != nil {
+		if err := r.expireBeforeDone(q); err != nil {
+			return false, err
+		}
 	}
 	r.release(q)
 	if err := r.settle(q, nil); err != nil {
@@ -851,6 +876,9 @@ func (r *ddRun) stepLeadCheck(q *ddReq) (bool, error) {
 func (r *ddRun) stepDownstream(q *ddReq, o ddOutcome) (bool, error) {
 	if q.status != "down" {
 		return false, nil
+	}
+	if err := r.expireBeforeDone(q); err != nil {
+		return false, err
 	}
 	if q.ctx.fired() != nil {
 		o.kind = "failLocal"
